@@ -38,11 +38,12 @@ struct skiplist_iter {
 struct skiplist_node {
 	const char *key;
 	void *value;
-	/* special meaning when lower than SKIPLIST_LEVEL_MIN:
-	   indication that @skiplist_node_destroy() needs to skip
-	   disposing node->forward (unless it is the termination
-	   of the whole list) */
 	int8_t level;
+	/* set once the node was spliced out of the list; it stays around
+	   (with its key) until the last iterator positioned on it is gone */
+	int8_t removed;
+	/* one reference for being in the list, one for each iterator
+	   positioned on the node */
 	uint32_t refcount;
 	struct qb_list_head notifier_head;
 
@@ -54,10 +55,6 @@ struct skiplist {
 	struct qb_map map;
 
 	size_t length;
-	/* special meaning when lower than SKIPLIST_LEVEL_MIN:
-	   indication that @skiplist_node_destroy() is the terminating
-	   one (triggered with @skiplist_destroy()), therefore node->forward
-	   needs to be free'd unconditionally */
 	int8_t level;
 	struct skiplist_node *header;
 };
@@ -118,13 +115,12 @@ skiplist_node_new(const int8_t level, const char *key, const void *value)
 	new_node->value = (void *)value;
 	new_node->key = key;
 	new_node->level = level;
+	new_node->removed = QB_FALSE;
 	new_node->refcount = 1;
 	qb_list_init(&new_node->notifier_head);
 
 	/* A level 0 node still needs to hold 1 forward pointer, etc.;
-	   instead of "level + 1", we need to capture whole possible
-	   width because of forward-member-resilience-upon-entry-removal
-	   arrangment based on takeover-and-repoint. */
+	   the whole possible width is allocated regardless. */
 	new_node->forward = (struct skiplist_node **)
 	    (calloc(SKIPLIST_LEVEL_MAX + 1, sizeof(struct skiplist_node *)));
 
@@ -193,6 +189,30 @@ skiplist_lookup(struct skiplist *list, const char *key)
 	return NULL;
 }
 
+/*
+ * The first node with a key greater than @key (NULL if there is none).
+ * This is how an iterator positioned on a node that was removed in the
+ * meantime finds its way back into the list: the forward pointers of
+ * such a node are stale, but its key still tells where it used to be.
+ */
+static struct skiplist_node *
+skiplist_lookup_successor(struct skiplist *list, const char *key)
+{
+	struct skiplist_node *cur_node = list->header;
+	int8_t level = list->level;
+
+	while (level >= SKIPLIST_LEVEL_MIN) {
+		struct skiplist_node *fwd_node = cur_node->forward[level];
+
+		if (fwd_node && strcmp(fwd_node->key, key) <= 0) {
+			cur_node = fwd_node;
+		} else {
+			level--;
+		}
+	}
+	return skiplist_node_next(cur_node);
+}
+
 static void
 skiplist_notify(struct skiplist *l, struct skiplist_node *n,
 		uint32_t event, char *key, void *old_value, void *value)
@@ -249,10 +269,7 @@ skiplist_node_destroy(struct skiplist_node *node, struct skiplist *list)
 		free(tn);
 	}
 
-	if (node->level >= SKIPLIST_LEVEL_MIN
-	    || list->level < SKIPLIST_LEVEL_MIN) {
-		free(node->forward);
-	}
+	free(node->forward);
 	free(node);
 }
 
@@ -370,7 +387,6 @@ skiplist_destroy(struct qb_map *map)
 	struct skiplist_node *cur_node;
 	struct skiplist_node *fwd_node;
 
-	list->level = SKIPLIST_LEVEL_MIN - 1;  /* indicate teardown */
 	for (cur_node = skiplist_node_next(list->header);
 	     cur_node; cur_node = fwd_node) {
 		fwd_node = skiplist_node_next(cur_node);
@@ -484,37 +500,12 @@ skiplist_rm(struct qb_map *map, const char *key)
 		}
 	}
 
-	/* If @found_node is referenced more than once, it means that it is
-	   currently positioned with one or more iterators, therefore it's
-	   likely that @qb_map_iter_next() will be called at least once so
-	   as to progress pass this @found_node.  The problem is, original
-	   @found_node->forward may have become referencing successfully
-	   destroyed original successor by the time the progress of such
-	   iterator(s) resumes, possibly causing use-after-free in
-	   @skiplist_node_next().
+	/* @found_node may still be referenced by iterators positioned on it;
+	   from now on its forward pointers are stale (the successors can be
+	   removed and destroyed at any time), so mark it: such an iterator
+	   resumes from the node's key instead, see @skiplist_iter_next(). */
+	found_node->removed = QB_TRUE;
 
-	   To solve this, we will grab @cur_node->forward, which has just
-	   been updated accordingly in the above statement, copying it
-	   to @found_node->forward, and repointing @cur_node->forward to
-	   point to @found_node's copy (freeing its original list first).
-	   To prevent freeing the pointed memory behind @cur_node's
-	   back from the @found_node's context, we use the fact that the
-	   iterator can only advance to the next node, without re-examination
-	   of the current one, hence we can afford to abuse @found_node->value
-	   as a flag field when set to our private "special" value that under
-	   no normal circumstance can appear (for being link-time singleton).
-
-	   In addition, we have to special-case the beginning of the list
-	   (header) preceding @found_node, which can be distinguished with
-	   NULL being used as a key (second allowing condition below). */
-	if (found_node->refcount > 1 || cur_node->key == NULL) {
-		for (level = SKIPLIST_LEVEL_MIN; level <= found_node->level; level++) {
-			found_node->forward[level] = cur_node->forward[level];
-		}
-		found_node->level = SKIPLIST_LEVEL_MIN - 1;  /* no "forward" drop */
-		free(cur_node->forward);
-		cur_node->forward = found_node->forward;
-	}
 	skiplist_node_deref(found_node, list);
 
 	/* Remove unused levels from @list -- stop removing levels as soon as a
@@ -568,7 +559,12 @@ skiplist_iter_next(qb_map_iter_t * i, void **value)
 	if (p == NULL) {
 		return NULL;
 	}
-	si->n = skiplist_node_next(p);
+	if (p->removed) {
+		si->n = skiplist_lookup_successor((struct skiplist *)i->m,
+						  p->key);
+	} else {
+		si->n = skiplist_node_next(p);
+	}
 	if (si->n == NULL) {
 		skiplist_node_deref(p, (struct skiplist *)i->m);
 		return NULL;
@@ -582,6 +578,13 @@ skiplist_iter_next(qb_map_iter_t * i, void **value)
 static void
 skiplist_iter_free(qb_map_iter_t * i)
 {
+	struct skiplist_iter *si = (struct skiplist_iter *)i;
+
+	if (si->n != NULL) {
+		/* freed before getting to the end: drop the reference
+		 * held on the current node */
+		skiplist_node_deref(si->n, (struct skiplist *)i->m);
+	}
 	free(i);
 }
 
